@@ -596,12 +596,12 @@ Proof. exact gen_correct_partial_template. Qed.
 Print Assumptions C04_gen_correct_partial_template.
 
 (* the entry point: Renderer.Execute (Model/Interp.v's render) of a template of the program, data a map of core values,
-   no write budget: Ok, and the Write calls concatenate to the text of the subset semantics *)
+   no write budget: Ok, and the Write calls concatenate to the text of the subset semantics (also when Execute's entry
+   mode "on" differs from the mode "unspecified" a call and the generator use: both escape) *)
 Theorem C04_go_render_correct : forall cf p,
   c_oblig cf = [] -> (forall x, c_ij cf = Some x -> core_value x = true) -> r_templates (c_reg cf) = c04_templates p ->
   forall k name t data_id data first_id text fuel,
   c04_find p name = Some t ->
-  template_mode (entry_mode (ct_ns_ae t)) (ct_ae t) = ct_mode t ->
   forallb (fun kv => core_value (snd kv)) data = true ->
   c04_tout (c_ij cf) go_print_text p (S k) name (fun q => assoc_s q data) = Some text ->
   (S k * c04_D p <= fuel)%nat ->
@@ -692,8 +692,8 @@ Proof. exact c04_imp_free_es5. Qed.
    the namespace objects, soyutils.js --: node correspondence of the harness (MiniJS-vs-V8); (c) {msg} with {plural} and
    messages rendered from a bundle (soyjs evalMsgParts): C11_three_sided_translation_partial covers bundle messages of
    plain items relative to C04's step, not composed here; (d) a registry of several files: see
-   C04_gen_registry_correct_partial below; (e) Execute's entry mode: the statement is for
-   templates whose autoescape mode is the same when entered by Execute and by a call (hypothesis on ct_mode). *)
+   C04_gen_registry_correct_partial below.  (Execute enters a template of a namespace without an autoescape attribute in
+   mode "on" while a call -- and the generator -- use "unspecified": the subset semantics is the same for both, bout_mode01.) *)
 Theorem C04_gen_file_correct_partial : forall cf o fname ns nsae p F,
   c_oblig cf = [] -> (forall x, c_ij cf = Some x -> core_value x = true) -> r_templates (c_reg cf) = c04_templates p ->
   cn_ok o -> c04_imp_free o -> o_msgs o = None ->
@@ -703,7 +703,6 @@ Theorem C04_gen_file_correct_partial : forall cf o fname ns nsae p F,
   gen_file o F fname (c04_file_nodes ns nsae p) = Ok (c04_file_header fname ++ c04_ns_lines ns ++ c04_table_chunks o jp)
   /\ forall k name t data_id data first_id text fuel,
        c04_find p name = Some t ->
-       template_mode (entry_mode (ct_ns_ae t)) (ct_ae t) = ct_mode t ->
        forallb (fun kv => core_value (snd kv)) data = true ->
        c04_tout (c_ij cf) go_print_text p (S k) name (fun q => assoc_s q data) = Some text ->
        (S k * c04_D p <= fuel)%nat ->
@@ -720,7 +719,7 @@ Print Assumptions C04_gen_file_correct_partial.
    file's generated text is header + namespace declarations + its own printed function table (each file from counter 0:
    soyjs.Write makes a new scope per file), and in the UNION of the tables -- what an engine holds after loading every
    generated file -- the function of every template returns what Renderer.Execute writes, calls across files included
-   (same hypotheses, same limits (a) (b) (c) (e)). *)
+   (same hypotheses, same limits (a) (b) (c)). *)
 Theorem C04_gen_registry_correct_partial : forall cf o fs F,
   c_oblig cf = [] -> (forall x, c_ij cf = Some x -> core_value x = true) -> r_templates (c_reg cf) = c04_templates (c04_all_tmpls fs) ->
   cn_ok o -> c04_imp_free o -> o_msgs o = None ->
@@ -733,7 +732,6 @@ Theorem C04_gen_registry_correct_partial : forall cf o fs F,
      = Ok (c04_file_header (cfl_name f) ++ c04_ns_lines (cfl_ns f) ++ c04_table_chunks o (c04_jprog_chain (cfl_tmpls f) 0)))
   /\ forall k name t data_id data first_id text fuel,
        c04_find p name = Some t ->
-       template_mode (entry_mode (ct_ns_ae t)) (ct_ae t) = ct_mode t ->
        forallb (fun kv => core_value (snd kv)) data = true ->
        c04_tout (c_ij cf) go_print_text p (S k) name (fun q => assoc_s q data) = Some text ->
        (S k * c04_D p <= fuel)%nat ->
